@@ -125,6 +125,19 @@ CHECKS["C16"] = dict(
          "Counterexamples of the concurrent part are re-executed in the VM under the found schedule.",
 )
 
+CHECKS["C18"] = dict(
+    engine="sbvm-t",
+    technique="bounded model checking (z3) of the real EventDebouncer (own thread, producer, stopper) under a symbolic "
+              "scheduler and clock",
+    level=("model_checking",
+           "Only the debouncer third of the property is decided: for all interleavings and clock readings of the "
+           "stated programs, every event handed over is delivered exactly once and in order once the interval has "
+           "passed (a lost wake-up is a deadlock), nothing is delivered after stop() returned, and the thread exits. "
+           "AutoRestartTrick and ShellCommandTrick (process table) are not covered.", "DESIGN.md section 9, C18"),
+    note="Trusted: Condition/Event/Thread/clock models, mover reduction, z3; counterexamples re-executed in the VM. "
+         "The auto-restart and shell-command tricks are outside this check.",
+)
+
 NOT_YET = "check not built yet (work in progress; see DESIGN.md section 11 for the order)"
 NA = {}
 
